@@ -94,7 +94,7 @@ def handle : List String → Option String
       pure (showRand (ibzRandInterval a b s) s.length)
   | ["randint86", a, b, s] => do
       let a ← parseHexInt? a; let b ← parseHexInt? b; let s ← parseStream? s
-      pure (showRand (ibzRandIntervalX86 a b s) s.length)
+      pure (showRand (ibzRandInterval a b s) s.length)
   | ["randminm", m, s] => do
       let m ← parseHexInt? m; let s ← parseStream? s
       pure (showRand (ibzRandIntervalMinmM m s) s.length)
@@ -103,7 +103,7 @@ def handle : List String → Option String
       pure (showRes (fun (x, y) => hs [x, y]) (ibzCornacchiaPrime n p))
   | ["cornsp", n, p, e] => do
       let n ← parseHexInt? n; let p ← parseHexInt? p; let e ← parseHexNat? e
-      pure (showRes (fun (x, y) => hs [x, y]) (ibzCornacchiaSpecialPrime (0, 0) n p e))
+      pure (showRes (fun (x, y) => hs [x, y]) (ibzCornacchiaSpecialPrime n p e))
   | ["cmulpow", r0, r1, a0, a1, e] => do
       let r0 ← parseHexInt? r0; let r1 ← parseHexInt? r1; let a0 ← parseHexInt? a0; let a1 ← parseHexInt? a1
       let e ← parseHexNat? e
